@@ -94,9 +94,18 @@ def gen_program(rng, role, nobj, nops):
             elif r < 0.72:
                 ops += [['b'], ['w', grp], ['r', grp], ['c']]
                 i += 3
-            elif r < 0.80:
+            elif r < 0.76:
                 ops += [['w', grp], ['a']]
                 i += 1
+            elif r < 0.80:
+                # savepoints: changes before sp1, changes after it flushed by a later savepoint, rollback
+                g2 = sorted(rng.sample(range(nobj), min(nobj, rng.choice([1, 2, 3]))))
+                ops += [['w', grp], ['sp'], ['w', g2], ['sp']] + \
+                       ([['w', [rng.randrange(nobj)]]] if rng.random() < 0.4 else []) + \
+                       [['rb', rng.choice([0, 0, 1])], ['r', sorted(set(grp + g2))], [rng.choice(['c', 'c', 'a', 'b'])]]
+                i += 4
+            elif r < 0.82:
+                ops.append([rng.choice(['sp', 'sp', 'rb']), 0] if rng.random() < 0.5 else ['sp'])
             elif r < 0.88:
                 ops.append(['b'])
             elif r < 0.92:
@@ -120,13 +129,14 @@ def gen_case(rng, thorough, idx):
         progs['t%d' % t] = gen_program(rng, role2, nobj, rng.choice([4, 6, 8, 10]))
     if kind != 'file':
         progs = {t: [op for op in ops if op[0] not in ('u', 'um')] for t, ops in progs.items()}
+    blobs = sorted(rng.sample(range(nobj), rng.choice([1, 1, 2]))) if kind == 'file' and rng.random() < 0.35 else []
     pack = kind == 'file' and rng.random() < (0.25 if thorough else 0.15)
     if pack:
         progs['pk'] = [['pack']] * rng.choice([1, 1, 2])
     return dict(kind=kind, nobj=nobj, progs=progs, seed=rng.randrange(1 << 30),
                 stick=rng.choice([0.0, 0.3, 0.6, 0.8, 0.9]), pool=7,
                 explicit=rng.random() < 0.2, garbage=rng.choice([0, 1, 2]),
-                clock_step=rng.choice([1.0, 1.0, 0.0, 0.0, 0.001]),
+                clock_step=rng.choice([1.0, 1.0, 0.0, 0.0, 0.001]), blobs=blobs,
                 pct=[rng.choice([1, 2, 3]), rng.choice([100, 300, 800])] if rng.random() < 0.35 else None)
 
 
@@ -162,6 +172,22 @@ class PCTScheduler(sched.Scheduler):
         return best
 
 
+def get_value(obj):
+    """the state of a test object: MinPO.value, or the integer stored in a Blob's data"""
+    if hasattr(obj, 'open') and not hasattr(obj, 'value'):
+        with obj.open('r') as f:
+            return int(f.read())
+    return obj.value
+
+
+def set_value(obj, v):
+    if hasattr(obj, 'open') and not hasattr(obj, 'value'):
+        with obj.open('w') as f:
+            f.write(b'%d' % v)
+    else:
+        obj.value = v
+
+
 # ---------------------------------------------------------------- real code
 class Run:
     """state shared by the instrumentation of one case"""
@@ -176,6 +202,7 @@ class Run:
         self.loads = {}             # thread -> number of storage loads (to tell hit from miss)
         self.inst_ids = {}          # id(instance) -> small int
         self.pool_bad = []
+        self.values = {}            # (oid, tid) -> stamp the harness knows that commit wrote
         self.trace = []             # model-level events (c02_trace)
         self.tracer = None
 
@@ -219,6 +246,8 @@ def instrumented(run):
         t = tname()
         tid = o_fin(self, transaction, func)
         run.commits.append(dict(tid=u64(tid), thread=t, ret=run.tick(), oids=sorted(run.pending.get(t, {}))))
+        for o, v in run.pending.get(t, {}).items():
+            run.values[(o, u64(tid))] = v
         return tid
 
     def load(self, oid):
@@ -226,7 +255,10 @@ def instrumented(run):
         if t is None:
             return o_load(self, oid)
         run.loads[t] = run.loads.get(t, 0) + 1
-        if run.tracer and sys._getframe(1).f_code.co_name == 'setstate':
+        caller = sys._getframe(1).f_code.co_name
+        if caller == 'load' and sys._getframe(2).f_code.co_name == 'setstate':
+            caller = 'setstate'         # TmpStore.load of an object the savepoints do not hold
+        if run.tracer and caller == 'setstate':
             # (Connection.get loads the pickle only to find the class; the state is set by setstate)
             run.tracer.enter_load(t, self, oid)
         r = None
@@ -266,7 +298,7 @@ def worker(run, db, name, ops, nobj, explicit, stamps):
     from ZODB.POSException import ConflictError
     from ZODB.utils import u64
     tm = transaction.TransactionManager(explicit=explicit)
-    st = dict(conn=None, objs=None)
+    st = dict(conn=None, objs=None, sps=[])
     run.pending[name] = {}
     tr = run.tracer
 
@@ -278,6 +310,7 @@ def worker(run, db, name, ops, nobj, explicit, stamps):
             fn()
         finally:
             run.pending[name] = {}
+            st['sps'] = []
             cur = run.cur.get(name)
             if cur is None or cur['begin'] < idx:
                 ep = dict(thread=name, begin=idx, end_poll=run.tick(), start=None, reads=[], owns=[],
@@ -293,6 +326,29 @@ def worker(run, db, name, ops, nobj, explicit, stamps):
         boundary(f)
         root = st['conn'].root()
         st['objs'] = [root['k%d' % i] for i in range(nobj)]
+        st['index'] = {u64(o._p_oid): i for i, o in enumerate(st['objs'])}
+
+    def do_savepoint():
+        sp = tm.savepoint()
+        st['sps'].append((sp, dict(run.pending[name])))
+        run.errors.append((name, 'savepoint', 'ok'))
+
+    def do_rollback(k):
+        """roll back to the k-th most recent savepoint: own changes made after it are gone, the ones
+        made before it are back — and every object touched must read accordingly"""
+        if not st['sps']:
+            return
+        j = max(0, len(st['sps']) - 1 - k)
+        sp, saved = st['sps'][j]
+        touched = set(run.pending[name]) | set(saved)
+        sp.rollback()
+        del st['sps'][j + 1:]
+        run.pending[name] = dict(saved)
+        run.errors.append((name, 'rollback', 'ok'))
+        if tr:
+            tr.rollback(name, st['conn'], saved)
+        for oid in sorted(touched):
+            read(st['index'][oid])
 
     def read(i):
         obj = st['objs'][i]
@@ -301,7 +357,7 @@ def worker(run, db, name, ops, nobj, explicit, stamps):
         ghost = obj._p_changed is None
         if tr:
             tr.pre_read(name, st['conn'], oid)
-        v = obj.value
+        v = get_value(obj)
         hit = run.loads.get(name, 0) == before
         if tr:
             tr.post_read(name, st['conn'], oid, hit, u64(obj._p_serial), v)
@@ -408,7 +464,7 @@ def worker(run, db, name, ops, nobj, explicit, stamps):
                     for i in op[1]:
                         read(i)                      # the base state is a read of this epoch too
                         obj = st['objs'][i]
-                        obj.value = stamp
+                        set_value(obj, stamp)
                         run.pending[name][u64(obj._p_oid)] = stamp
                         if tr:
                             tr.write(name, st['conn'], u64(obj._p_oid), stamp)
@@ -418,6 +474,10 @@ def worker(run, db, name, ops, nobj, explicit, stamps):
                     boundary(do_abort)
                 elif k == 'b':
                     boundary(do_begin)
+                elif k == 'sp':
+                    do_savepoint()
+                elif k == 'rb':
+                    do_rollback(op[1] if len(op) > 1 else 0)
                 elif k == 'u':
                     boundary(lambda: do_undo(op[1]))
                 elif k == 'um':
@@ -439,6 +499,8 @@ def worker(run, db, name, ops, nobj, explicit, stamps):
                 boundary(do_abort)
     finally:
         try:
+            if tr:
+                tr.abort(name, st['conn'])
             tm.abort()
             st['conn'].close()
         except Exception as e:      # noqa: BLE001
@@ -487,6 +549,7 @@ def run_case(case, tmp, with_trace=False, schedule=None):
     import ZODB
     from ZODB.FileStorage import FileStorage
     from ZODB.MappingStorage import MappingStorage
+    from ZODB.blob import Blob
     from ZODB.tests.MinPO import MinPO
     from ZODB.utils import u64
     run = Run()
@@ -502,7 +565,8 @@ def run_case(case, tmp, with_trace=False, schedule=None):
             rec = vfs.Recorder(d)
             es.enter_context(vfs.install(rec))
             rec.record = lambda ev: None        # the byte trace is not needed here
-            st = FileStorage(os.path.join(d, 'Data.fs'))
+            st = FileStorage(os.path.join(d, 'Data.fs'),
+                             blob_dir=os.path.join(d, 'blobs') if case.get('blobs') else None)
         else:
             st = MappingStorage()
         hooks = []
@@ -527,7 +591,7 @@ def run_case(case, tmp, with_trace=False, schedule=None):
             if run.tracer:
                 run.tracer.write('setup', c, 0, 0)
             for i in range(case['nobj']):
-                o = MinPO(0)
+                o = Blob(b'0') if i in case.get('blobs', ()) else MinPO(0)
                 c.add(o)
                 root['k%d' % i] = o
                 if run.tracer:
@@ -537,7 +601,7 @@ def run_case(case, tmp, with_trace=False, schedule=None):
             tm0.commit()
             for g in range(case.get('garbage', 0)):
                 for i in range(case['nobj']):
-                    root['k%d' % i].value = 1000000 + g
+                    set_value(root['k%d' % i], 1000000 + g)
                     if run.tracer:
                         run.tracer.write('setup', c, u64(root['k%d' % i]._p_oid), 1000000 + g)
                 if run.tracer:
@@ -601,6 +665,7 @@ def run_case(case, tmp, with_trace=False, schedule=None):
     obs['commits'] = run.commits
     obs['errors'] = run.errors
     obs['pool_bad'] = run.pool_bad
+    obs['values'] = run.values
     obs['trace'] = run.tracer.lines() if run.tracer else None
     obs['trace_expect'] = run.tracer.expect if run.tracer else None
     obs['setup_tid'] = setup_tid
@@ -632,7 +697,11 @@ def oracle(obs):
                             'revision of the final storage' % (ep['thread'], oid, serial)))
                 continue
             k = ks[0]
-            if value is not None and rl[k][1] is not None and rl[k][1] != value:
+            known = rl[k][1] if rl[k][1] is not None else obs.get('values', {}).get((oid, serial))
+            if value is not None and known is not None and known != value:
+                out.append(('C02:value-serial-mismatch', 'thread %s read oid %d value %r with serial %x '
+                            'whose committed value is %r' % (ep['thread'], oid, value, serial, known)))
+            elif False and value is not None and rl[k][1] is not None and rl[k][1] != value:
                 out.append(('C02:value-serial-mismatch', 'thread %s read oid %d value %r with serial %x '
                             'whose committed value is %r' % (ep['thread'], oid, value, serial, rl[k][1])))
             nxt = rl[k + 1][0] if k + 1 < len(rl) else INF
@@ -673,7 +742,7 @@ def nontrivial(obs):
 def canonical(case):
     return dict(kind=case['kind'], nobj=case['nobj'], progs=case['progs'], seed=case['seed'],
                 stick=case['stick'], explicit=case['explicit'], clock_step=case.get('clock_step', 1.0),
-                pct=case.get('pct'))
+                pct=case.get('pct'), blobs=case.get('blobs', []))
 
 
 # ---------------------------------------------------------------- batches (multiprocessing)
@@ -694,6 +763,8 @@ def run_batch(args):
         nt = nontrivial(obs)
         out['evals'] += 1
         count('kind:' + case['kind'])
+        if case.get('blobs'):
+            count('with-blobs')
         count('strategy:' + ('pct%d' % case['pct'][0] if case.get('pct') else 'random'))
         count('threads:%d' % len(case['progs']))
         if 'pk' in case['progs']:
